@@ -108,7 +108,19 @@ Inductive eop :=
 | EDiffs (q : point)                             (* space.calculate_difference_vector(q) *)
 | ENbrRadius (a : Z) (r : Z)                     (* a.get_neighbors_in_radius(r) *)
 | ENearestNbrs (a : Z) (k : nat) (out : list Z)  (* a.get_nearest_neighbors(k) -> out *)
-| EPair (a b : Z).                               (* calculate_distances(a.position, [b]) and (b.position, [a]) *)
+| EPair (a b : Z)                                (* calculate_distances(a.position, [b]) and (b.position, [a]) *)
+| EDistancesOf (q : point) (l : list Z)          (* space.calculate_distances(q, agents=l) *)
+| EDiffsOf (q : point) (l : list Z).             (* space.calculate_difference_vector(q, agents=l) *)
+
+(* self._agent_positions[[self._agent_to_index[a] for a in agents]] : the rows of the listed agents, in order *)
+Fixpoint positions_of (g : Z -> option point) (l : list Z) : option (list point) :=
+  match l with
+  | [] => Some []
+  | a :: t => match g a, positions_of g t with
+              | Some p, Some r => Some (p :: r)
+              | _, _ => None
+              end
+  end.
 
 (* ---- queries.  Every query reads the rows through  zip(active_agents, agent_positions)  and an
    agent's own position through the position getter; `equery` is written over those two readings
@@ -116,7 +128,8 @@ Inductive eop :=
 Section Queries.
   Variable c : ecfg.
   Variable m : list (Z * point).          (* zip(active_agents, agent_positions) *)
-  Variable getpos : Z -> option point.    (* agent.position of an agent of the space *)
+  Variable getpos : Z -> option point.    (* agent.position of an agent of the space (through the view) *)
+  Variable getrow : Z -> option point.    (* _agent_positions[_agent_to_index[agent]] (the agents= path) *)
   Variable n : nat.                       (* _n_agents *)
 
   (* calculate_distances(point)   :197-230 : (agent, squared distance) in active order *)
@@ -175,11 +188,32 @@ Section Queries.
             Some (Ok [dist2 (ec_torus c) bs pb pa; dist2 (ec_torus c) bs pa pb])
         | _, _ => None
         end
+    | EDistancesOf q l =>
+        if negb (dim_ok bs q) then None
+        else match positions_of getrow l with
+             | None => None
+             | Some rows =>
+                 Some (Ok (concat (map (fun ar : Z * point =>
+                                          [fst ar; dist2 (ec_torus c) bs (snd ar) q]) (combine l rows))))
+             end
+    | EDiffsOf q l =>
+        if negb (dim_ok bs q) then None
+        else match positions_of getrow l with
+             | None => None
+             | Some rows =>
+                 Some (Ok (concat (map (fun ar : Z * point =>
+                                          fst ar :: diffv (ec_torus c) bs q (snd ar)) (combine l rows))))
+             end
     end.
 End Queries.
 
 Definition e_getpos (s : estate) (a : Z) : option point :=
   if mem a (e_active s) then get_position s a else None.
+
+Definition e_getrow (s : estate) (a : Z) : option point :=
+  if mem a (e_active s)
+  then match aget a (e_a2i s) with Some idx => nth_error (e_store s) idx | None => None end
+  else None.
 
 Definition estep (c : ecfg) (s : estate) (o : eop) : estate * option (result (list Z)) :=
   let bs := ec_bounds c in
@@ -208,7 +242,7 @@ Definition estep (c : ecfg) (s : estate) (o : eop) : estate * option (result (li
         | Ok s' => (s', Some (Ok []))
         | Err k => (s, Some (Err k))
         end
-  | _ => (s, equery c (combine (e_active s) (e_rows s)) (e_getpos s) (e_n s) o)
+  | _ => (s, equery c (combine (e_active s) (e_rows s)) (e_getpos s) (e_getrow s) (e_n s) o)
   end.
 
 (* what the property talks about: space.agents and every agent's reported position *)
